@@ -137,30 +137,62 @@ def jobs(chk):
     return js
 
 
+def stage_minimiser_dev(x, k):
+    """Largest |k_i - argmin_k sum_n |f_{i-1}[n] + k b_{i-1}[n-1]|^2 + |b_{i-1}[n-1] + conj(k) f_{i-1}[n]|^2|, the
+    stage errors f, b being the outputs of the prediction-error filters built from the *returned* k_1..k_{i-1}
+    (float transcription of the envelope of Burg.tla: StageOptimal)."""
+    f = np.asarray(x, dtype=complex).copy()
+    b = f.copy()
+    worst = 0.0
+    for i in range(len(k)):
+        ff, bb = f[1:], b[:-1]
+        den = np.sum(np.abs(ff) ** 2 + np.abs(bb) ** 2)
+        if den <= 0:
+            break
+        kopt = -2 * np.sum(ff * np.conj(bb)) / den
+        worst = max(worst, abs(kopt - k[i]))
+        f, b = ff + k[i] * bb, bb + np.conj(k[i]) * ff
+    return worst
+
+
 def obs_events(chk):
     from spectrum import arburg
     rng = np.random.RandomState(1300 + chk.seed)
     batch = obs.Batch('ObsC13')
     reps = 30 if chk.tier == 'quick' else 300
     sizes = [4, 6, 9, 16, 33, 64, 127, 128, 129, 200]
-    grid = [(N, c) for N in sizes for c in (False, True)]
+    grid = [(N, c, None, None) for N in sizes for c in (False, True)]
+    # orders on both sides of 16 / 32 (any periodic or size-dependent branch of the recursion), the largest
+    # admissible order, and strongly predictable data (reflection coefficients of modulus close to 1)
+    grid += [(N, c, p, 0) for N, p in ((33, 16), (64, 17), (64, 33), (128, 40), (20, 18), (9, 7)) for c in (False, True)]
+    # (predictable data: low orders only - the denominator recursion of the method loses digits as the error vanishes;
+    #  measured worst deviation of a stage minimiser on the unchanged tree: 2e-9 for p <= 4, 2e-5 at p = 8)
+    grid += [(N, c, p, 3) for N, p in ((16, 2), (33, 3), (64, 4), (200, 4)) for c in (False, True)]
     for rep in range(reps + len(grid)):
         if rep < len(grid):
-            N, cplx = grid[rep]
+            N, cplx, p_fixed, kind_fixed = grid[rep]
         else:
             N = int(rng.choice(sizes))
             cplx = bool(rng.randint(2))
-        p = int(rng.randint(1, min(N - 2, 30) + 1))
-        kind = int(rng.randint(3))
+            p_fixed = kind_fixed = None
+        p = int(rng.randint(1, min(N - 2, 40) + 1)) if p_fixed is None else p_fixed
+        kind = int(rng.randint(4)) if kind_fixed is None else kind_fixed
+        if kind == 3 and kind_fixed is None:
+            N, p = max(N, 16), min(p, 4)
         t = np.arange(N)
         if kind == 0:
             x = rng.randn(N)
         elif kind == 1:
             x = np.cos(0.6 * t) + 0.5 * np.cos(1.7 * t + 1) + 0.1 * rng.randn(N)
-        else:
+        elif kind == 2:
             x = rng.randint(-3, 4, N).astype(float) + 0.01 * rng.randn(N)
+        else:
+            x = np.cos(0.9 * t + 0.3) + 1e-3 * rng.randn(N)          # one tone 60 dB above the noise
         if cplx:
-            x = x + 1j * (rng.randn(N) if kind != 1 else np.sin(0.6 * t) + 0.1 * rng.randn(N))
+            if kind == 3:
+                x = np.exp(1j * (0.9 * t + 0.3)) + 1e-3 * (rng.randn(N) + 1j * rng.randn(N))
+            else:
+                x = x + 1j * (rng.randn(N) if kind != 1 else np.sin(0.6 * t) + 0.1 * rng.randn(N))
         ev = {'ev': 'burg', 'N': N, 'p': p, 'cplx': cplx, 'kind': kind}
         # integer-valued data: the same samples stored in a narrow integer dtype must give the same model
         if kind == 2 and not cplx:
@@ -179,6 +211,7 @@ def obs_events(chk):
             ev['maxroot_ppm'] = obs.q(np.max(np.abs(np.roots(poly))), 1e-6)
             e0 = np.mean(np.abs(x) ** 2)
             ev['rho_dev'] = obs.q(abs(rho - e0 * np.prod(1 - np.abs(k) ** 2)) / e0)
+            ev['min_dev'] = obs.q(stage_minimiser_dev(x, k))
             rhos = [e0]
             nest = 0.0
             for q in range(1, p + 1):
@@ -205,7 +238,7 @@ def obs_events(chk):
                 ev['crit_dev'] = 0
                 ev['crit_order_ok'] = bool(N - p - 2 <= 0)   # criteria undefined when N-p-2 <= 0
         else:
-            ev.update(maxk_ppm=0, maxroot_ppm=0, rho_dev=0, nest_dev=0, nonincreasing=False, lens=False, crit_dev=0, crit_order_ok=False)
+            ev.update(maxk_ppm=0, maxroot_ppm=0, rho_dev=0, min_dev=0, nest_dev=0, nonincreasing=False, lens=False, crit_dev=0, crit_order_ok=False)
         batch.add(ev, {'N': N, 'p': p, 'cplx': cplx, 'kind': kind, 'seed': chk.seed, 'rep': rep})
     obs.validate(chk, batch, 'obs-large-N', lambda ev, cl: 'C13:OBS:%s:%s' % (cl, 'complex' if ev['cplx'] else 'real'),
                  lambda ev, cl: 'arburg N=%d order=%d: clause "%s" fails: %s' % (ev['N'], ev['p'], cl, ev))
